@@ -332,6 +332,16 @@ macro_rules! ss_impl {
 ss_impl!(SsU16, u16);
 ss_impl!(SsU32, u32);
 
+/// the sketcher built by `Default` (hard-wired m = 4096 and the default parameters)
+pub fn ss_default_u16() -> SsU16 {
+    let p = SetSketchParams::default();
+    SsU16(SetSketcher::default(), SsParams { b: p.get_b(), m: p.get_m(), a: p.get_a(), q: p.get_q() })
+}
+pub fn ss_default_u32() -> SsU32 {
+    let p = SetSketchParams::default();
+    SsU32(SetSketcher::default(), SsParams { b: p.get_b(), m: p.get_m(), a: p.get_a(), q: p.get_q() })
+}
+
 // ---------------------------------------------------------------- ProbMinHash
 pub struct Pmh2(pub ProbMinHash2<u64, FnvHasher>, usize);
 impl Pmh2 {
@@ -552,6 +562,8 @@ pub fn make(c: &Cfg) -> Box<dyn Sk> {
         "smh2_u32_xx" => Box::new(Smh2U32Xx::new(m)),
         "ss_u16" => Box::new(SsU16::new(c.ss.unwrap())),
         "ss_u32" => Box::new(SsU32::new(c.ss.unwrap())),
+        "ss_def_u16" => Box::new(ss_default_u16()),
+        "ss_def_u32" => Box::new(ss_default_u32()),
         "pmh2" => Box::new(Pmh2::new(m)),
         "pmh3" => Box::new(Pmh3::new(m)),
         "pmh3a" => Box::new(Pmh3a::new(m)),
